@@ -363,20 +363,11 @@ func runWire(c Case) kit.Verdict {
 	checkHeaders("request", m.in, oh, m.hop, managedReq, mergeSets(notAssertedOnWire, addedByTransport), &v)
 	_, maj, min := protoOf(c)
 	checkChain("via", "Via at origin", m.in["Via"], oh["Via"], fmt.Sprintf("%d.%d %s", maj, min, self), &v)
-	checkChain("x-forwarded-for", "X-Forwarded-For at origin", m.in["X-Forwarded-For"], oh["X-Forwarded-For"], "127.0.0.1", &v)
 	u := "http://" + c.URLHost + c.Path
 	if c.Query != "" {
 		u += "?" + c.Query
 	}
-	for _, x := range []struct{ name, def string }{{"X-Forwarded-Proto", "http"}, {"X-Forwarded-Host", c.URLHost}, {"X-Forwarded-Url", u}} {
-		want, shape := m.in[x.name], "preexisting"
-		if len(want) == 0 {
-			want, shape = []string{x.def}, "absent"
-		}
-		if !equalStrings(want, oh[x.name]) {
-			v.Addf("C14/forwarded/"+strings.ToLower(x.name)+"-"+shape+"/wrong-value", "%s at origin: input %q, want %q, got %q", x.name, m.in[x.name], want, oh[x.name])
-		}
-	}
+	checkForwarded(m, oh, " at origin", "127.0.0.1", "http", c.URLHost, u, &v)
 
 	// response side, as seen by the client
 	if status != c.Status {
@@ -427,7 +418,7 @@ var propWire = &kit.Prop[Case]{
 	ID: "C14", Name: "wire",
 	Rule: "the same header shapes written as raw bytes (names in drawn case, drawn padding) by a TCP client through martian.NewProxy carrying the stack to a raw TCP origin that logs the header block it receives; origin-side and client-side header blocks compared with the model (Connection, Transfer-Encoding, Trailer not asserted: net/http regenerates them per hop; no framing conflicts: net/http rejects them before the stack); non-trivial as for the in-process check",
 	Gen:  genWire, Run: runWire, NonTrivial: nontrivial, Classes: classes,
-	Gates:   map[string]float64{"nontrivial": 0.5, "via-self": 0.1, "via-multi-line": 0.15, "conn-nominates-present-ext": 0.1},
+	Gates:   map[string]float64{"nontrivial": 0.5, "via-self": 0.1, "via-multi-line": 0.15, "conn-nominates-present-ext": 0.1, "conn-nominates-x-forwarded": 0.1},
 	Journal: true,
 }
 
